@@ -294,6 +294,7 @@ type Exec struct {
 	divCache       map[[2]*Term][2]*Term
 
 	unwindIsViolation bool
+	bigW              int
 }
 
 type Snapshot struct {
@@ -329,6 +330,7 @@ func (ex *Exec) resetPath(prefix []int) {
 		ex.maxSteps = 5_000_000
 	}
 	ex.unwind = 64
+	ex.bigW = defaultBigW
 	ex.unwindIsViolation = false
 	ex.depth = 0
 	ex.maxDepth = 200
@@ -723,6 +725,26 @@ func (ex *Exec) merge(c *Term, a, b Value) (Value, bool) {
 			return x, true
 		}
 		return nil, false
+	case HashState:
+		y, ok := b.(HashState)
+		if !ok || len(x.Elems) != len(y.Elems) {
+			return nil, false
+		}
+		es := make([]Value, len(x.Elems))
+		for i := range es {
+			m, ok := ex.merge(c, x.Elems[i], y.Elems[i])
+			if !ok {
+				return nil, false
+			}
+			es[i] = m
+		}
+		return HashState{Elems: es}, true
+	case BigBytesV:
+		y, ok := b.(BigBytesV)
+		if !ok || x.T.Sort != y.T.Sort {
+			return nil, false
+		}
+		return BigBytesV{T: ex.ts.Ite(c, x.T, y.T)}, true
 	}
 	return nil, false
 }
